@@ -298,6 +298,10 @@ func (s *Session) rfc3921Session() {
 			s.err = errors.New("expecting iq result after session open: " + s.err.Error())
 			return
 		}
+		if iq.Type != stanza.IQTypeResult {
+			s.err = errors.New("session open failed: server replied with iq type " + string(iq.Type))
+			return
+		}
 	}
 }
 
